@@ -59,7 +59,8 @@ def gen_s1(cfg) -> dict:
 
 
 def gen_scenario(ch: Choices, *, backends, max_nodes=8, types=None, cache='sometimes', bust=False,
-                 fail=0, die=False, cof=(True,), dup_refs=True, max_workers=(1, 2, 3, None)) -> dict:
+                 fail=0, die=False, cof=(True,), dup_refs=True, max_workers=(1, 2, 3, None), debris=True,
+                 load_faults=False) -> dict:
     st = ch.stream('spec')
     cfg = ch.stream('config')
     nodes = gen_dag(st, max_nodes=max_nodes, types=types or DEFAULT_TYPES, dup_refs=dup_refs)
@@ -83,6 +84,13 @@ def gen_scenario(ch: Choices, *, backends, max_nodes=8, types=None, cache='somet
         sc['cached'] = [i for i in cands if cfg.chance(1, 2)]
     if bust and cfg.chance(1, 5):
         sc['bust_cache'] = True
+    if debris and cfg.chance(1, 3):
+        # leftovers of saves that failed part-way, for some nodes that are not cached
+        rest = [n['id'] for n in nodes if ref.cacheable(n['id']) and n['id'] not in sc.get('cached', [])]
+        sc['debris'] = [i for i in rest if cfg.chance(1, 3)]
+    if load_faults and sc.get('cached') and not sc.get('bust_cache') and cfg.chance(1, 4):
+        # a storage read error while a cached result is loaded
+        sc['load_faults'] = [cfg.pick(sc['cached'])]
     if fail:
         f = {}
         ft = ch.stream('fault')
@@ -93,6 +101,8 @@ def gen_scenario(ch: Choices, *, backends, max_nodes=8, types=None, cache='somet
                     how = 'die'
                 elif ft.chance(1, 6):
                     how = 'sysexit'
+                elif ft.chance(1, 5):
+                    how = 'raise-chained'
                 f[str(n['id'])] = how
         sc['fail'] = f
     return sc
@@ -310,7 +320,7 @@ class C03(Check):
     expected_probes = ('second-call-same-lab',)
 
     def gen(self, ch, tier):
-        return gen_scenario(ch, backends=ALL_BACKENDS, cache='always', bust=True)
+        return gen_scenario(ch, backends=ALL_BACKENDS, cache='always', bust=True, load_faults=True)
 
     def oracle(self, sc, out, facts):
         vs = O.check_C03(sc, out, facts)
@@ -338,9 +348,9 @@ class C03(Check):
                 if not vs and out.kind == 'return' and cfg.chance(1, 3):
                     ref = facts.ref
                     now_cached = sorted(set(i for i in sc.get('cached', []) if ref.cacheable(i)) |
-                                        {n for n in facts.executed if ref.cacheable(n)})
+                                        {n for n in facts.executed if n in facts.ends and ref.cacheable(n)})
                     roots = [n['id'] for n in sc['nodes'] if cfg.chance(1, 2)] or [sc['nodes'][-1]['id']]
-                    sc2 = {k: v for k, v in sc.items() if k not in ('bust_cache', 'run_task')}
+                    sc2 = {k: v for k, v in sc.items() if k not in ('bust_cache', 'run_task', 'load_faults', 'debris')}
                     sc2.update({'requested': [[i, 1 if cfg.chance(1, 3) else 0] for i in roots], 'cached': now_cached,
                                 'skip_warm': True, 'gen_pre': sc.get('gen_main', 1)})
                     out2 = execute(sc2, ch, d, built=out.built, session=session)
@@ -368,7 +378,7 @@ class C04(Check):
     def gen(self, ch, tier):
         sc = gen_scenario(ch, backends=[('serial', 1), ('sim', 4), ('fork', 5), ('spawn', 3)], cache='sometimes',
                           fail=1, die=True, max_nodes=10,
-                          types=[('TA', 2), ('TB', 4), ('TC', 4), ('TD', 3), ('TN', 1), ('TN1', 3), ('TP', 2)])
+                          types=[('TA', 2), ('TB', 4), ('TC', 4), ('TD', 3), ('TN', 1), ('TN1', 3), ('TN2', 4), ('TP', 2), ('TF', 2)])
         sc['swarm']['gate_mode'] = 'hold'
         cfg = ch.stream('config')
         if cfg.chance(1, 2):
@@ -387,7 +397,7 @@ class C05(Check):
     def gen(self, ch, tier):
         sc = gen_scenario(ch, backends=[('serial', 1), ('sim', 4), ('fork', 5), ('spawn', 3)], cache='sometimes',
                           fail=1, die=True, max_nodes=10,
-                          types=[('TA', 3), ('TB', 3), ('TC', 4), ('TD', 3), ('TN', 2), ('TN1', 2), ('TP', 2)])
+                          types=[('TA', 3), ('TB', 3), ('TC', 4), ('TD', 3), ('TN', 2), ('TN1', 2), ('TN2', 3), ('TP', 2), ('TF', 2)])
         sc['swarm']['gate_mode'] = 'rest'
         sc['swarm']['w_timeout'] = 2
         cfg = ch.stream('config')
@@ -411,7 +421,7 @@ class C10(Check):
     principal_faults = ('task-raise',)
 
     def gen(self, ch, tier):
-        sc = gen_scenario(ch, backends=ALL_BACKENDS, cache='sometimes', fail=2, die=True, cof=(True, False, True))
+        sc = gen_scenario(ch, backends=ALL_BACKENDS, cache='sometimes', fail=2, die=True, cof=(True, False, True), bust=True)
         return with_die_kills(sc, ch)
 
     def oracle(self, sc, out, facts):
@@ -447,7 +457,7 @@ class C17(Check):
     id = 'C17'
 
     def gen(self, ch, tier):
-        sc = gen_scenario(ch, backends=ALL_BACKENDS, cache='sometimes', fail=1, die=True, cof=(True,))
+        sc = gen_scenario(ch, backends=ALL_BACKENDS, cache='sometimes', fail=1, die=True, cof=(True,), bust=True)
         sc['retention'] = True
         return with_die_kills(sc, ch)
 
@@ -493,7 +503,7 @@ class C16(Check):
 
     def gen(self, ch, tier):
         sc = gen_scenario(ch, backends=ALL_BACKENDS, cache='sometimes',
-                          types=[('TA', 3), ('TB', 2), ('TC', 2), ('TD', 2), ('TN', 2), ('TP', 5), ('TR', 3)])
+                          types=[('TA', 3), ('TB', 2), ('TC', 2), ('TD', 2), ('TN', 2), ('TP', 5), ('TR', 3), ('TF', 5)])
         cfg = ch.stream('config')
         if sc['backend'] in ('fork', 'spawn') and cfg.chance(1, 3):
             # an earlier run of the same interpreter used the other process backend
